@@ -62,6 +62,8 @@ def build_key(kd):
         return U.Alpha.Zed(kd[1])
     if t == 'NB':
         return U.Beta(kd[1])
+    if t == 'nan':
+        return float('nan')      # a key that is not equal to itself (only where a check asks for it: C04)
     raise ValueError(kd)
 
 
@@ -259,7 +261,12 @@ def _uniq_items(items):
     """Drop items whose *built* key duplicates an earlier one (1 == 1.0 == True)."""
     seen = set()
     out = []
+    nan_seen = False
     for k, c in items:
+        if k[0] == 'nan':            # at most one NaN key per dict (two NaN objects are two different keys)
+            if nan_seen:
+                continue
+            nan_seen = True
         bk = build_key(k)
         try:
             if bk in seen:
